@@ -150,6 +150,13 @@ def dynamic_values(run):
     INPUTS = []
 
     def inp(x, order="C"):
+        if order == "S":
+            # a strided (non-contiguous) view with the same values: every second entry of a larger array
+            base = np.zeros(tuple(2 * d for d in np.shape(x)))
+            view = base[tuple(slice(None, None, 2) for _ in np.shape(x))]
+            view[...] = x
+            INPUTS.append(view)
+            return view
         x = np.array(x, copy=True, order=order)
         INPUTS.append(x)
         return x
@@ -238,6 +245,43 @@ def dynamic_values(run):
             run.ob(tag + "/equal-parameters-in-another-memory-layout-compare-and-hash-equal", core.DISCHARGED if okf else core.FAILED, "native-exec", klass="bounded",
                    detail="" if okf else f"{name} built from the same parameter values in Fortran order: == is {a == f}, hashes {'equal' if hash(a) == hash(f) else 'differ'} "
                    "(equal objects must hash equal: set / dict lookups would miss)")
+            # ... and so are strided views; whatever the layout of the arrays handed in, every array the object holds after construction is read-only (a
+            # layout normalisation that copies after the write protection was applied would leave a writeable parameter behind a cached hash)
+            for lay, obj in (("C-ordered", a), ("Fortran-ordered", f)) + ((("strided", None),) if True else ()):
+                if obj is None:
+                    ORDER[0] = "S"
+                    try:
+                        del INPUTS[:]
+                        obj = mk()
+                    except Exception:  # noqa: BLE001  (a class that rejects non-contiguous input decides nothing here)
+                        continue
+                    finally:
+                        ORDER[0] = "C"
+                    oks = (a == obj) and hash(a) == hash(obj)
+                    run.ob(tag + "/equal-parameters-in-a-strided-view-compare-and-hash-equal", core.DISCHARGED if oks else core.FAILED, "native-exec", klass="bounded",
+                           detail="" if oks else f"{name} built from a strided view of the same values: == is {a == obj}, hashes {'equal' if hash(a) == hash(obj) else 'differ'}")
+                # the stored form of a parameter = an array held by the object with the shape and values of an array handed to the constructor (the very
+                # object, a view, or a copy made by the constructor); internal work arrays (split indices, factorisations computed by the class) are not meant
+                given = list(INPUTS) if lay == "strided" else (mine if lay == "C-ordered" else [])
+                if lay == "Fortran-ordered":
+                    given = [np.array(x) for x in mine]  # same values
+                wrh = [x.shape for x in arrays(obj, set()) if x.flags.writeable and any(g.shape == x.shape and np.array_equal(g, x) for g in given)]
+                run.ob(tag + "/stored-parameters-are-read-only-whatever-their-memory-layout", core.DISCHARGED if not wrh else core.FAILED, "native-exec", klass="bounded",
+                       witness=None if not wrh else {"class": name, "layout": lay},
+                       detail="" if not wrh else f"{name} built from {lay} parameter arrays holds writeable copies of its parameters (shapes {wrh}) right after construction")
+                # conversions with copy semantics hand out the caller's OWN array: writing into it must not reach the object
+                before = np.array(np.asarray(obj.array), copy=True)
+                leaks = []
+                for how, conv in (("np.array(m)", lambda m: np.array(m)), ("np.copy(m)", lambda m: np.copy(m))):
+                    try:
+                        c = conv(obj)
+                    except Exception as e:  # noqa: BLE001
+                        leaks.append(f"{how} raised {type(e).__name__}")
+                        continue
+                    if any(np.shares_memory(c, h) for h in arrays(obj, set())) or (c.flags.writeable and c.size and (c.__setitem__((0,) * c.ndim, c[(0,) * c.ndim] + 1.0) or not np.array_equal(np.asarray(obj.array), before))):
+                        leaks.append(how + " aliases an array held by the object")
+                run.ob(tag + "/conversions-with-copy-semantics-do-not-alias-the-object", core.DISCHARGED if not leaks else core.FAILED, "native-exec", klass="bounded",
+                       witness=None if not leaks else {"class": name, "layout": lay}, detail="; ".join(leaks))
             held = arrays(a, set())
             wr = [x for x in mine if x.flags.writeable and any(np.shares_memory(x, h) for h in held)]
             run.ob(tag + "/constructor-arrays-read-only", core.DISCHARGED if not wr else core.FAILED, "native-exec", klass="bounded",
